@@ -8,13 +8,15 @@
 (* the recorded proof bag - parsed with Boc!Parse and hashed with Cells          *)
 (* (Prim!Sha256) by the specification itself - is the proof the specification    *)
 (* requires for THIS request's prune set / key (ProofVerdict, WalkVerdict).      *)
-(*  {"k":"Reset","kind":"walk"|"dict","src","mode","n":8|0,"cells":[..],"roots":[0],"orig":{"cells","roots"}?}        *)
+(*  {"k":"Reset","kind":"walk"|"dict","src","mode","n":8|0,"cells":[..],"roots":[0],"orig":{"cells","roots"}?,"preread":s?} *)
 (*     orig: the source is the tree under an earlier proof of the level-0 tree orig (two-step proofs)                    *)
-(*  {"k":"Cursor","c":id}  {"k":"Ref","c":id,"i":0}  {"k":"Up","c":id}  {"k":"Prune","c":id}                            *)
-(*  {"k":"Create","c":id,"err":"","panic":"","proof":"hex","exphash":hex?}                                              *)
+(*  {"k":"Cursor","c":session}             handle 0 := prover.Cursor()                                                  *)
+(*  {"k":"Ref","c":session,"h":handle,"nh":new handle,"i":0}   nh := h.Ref(i)   (h and all other handles stay valid)     *)
+(*  {"k":"Prune","c":session,"h":handle}    h.Prune()                                                                    *)
+(*  {"k":"Create","c":session,"h":handle,"err":"","panic":"","proof":"hex","exphash":hex?}   CreateProof(h)              *)
 (*  {"k":"Key","key":"0101..","err":""|"e","panic":"","val":{"cells":[..],"roots":[0]},"proof":"hex","exp":{found,v}?}  *)
 (* A rejected event prints <<"NOTE", line, clause, class>>; class names the     *)
-(* input class: twin / valueref (see KeyClass), partial (source has pruned branches), leak (every pruned branch that   *)
+(* input class: twin / valueref (see KeyClass), partial (source has pruned branches), held (a Prune through a cursor value kept while others were derived), leak (every pruned branch that   *)
 (* this request does not account for was pruned by an EARLIER request of the     *)
 (* same prover), plain.  Clauses starting with "domain:" mean the harness or the *)
 (* specification is inconsistent (never a verdict on the code).                  *)
@@ -75,15 +77,20 @@ TReset == E.k = "Reset" /\ l = seg /\ ResetStep(ResetOutcome(E))
 \* Cursor(): a new session, empty prune set - whatever earlier sessions pruned
 TCursor == /\ E.k = "Cursor" /\ sess' = NewSession(sess, E.c) /\ UNCHANGED <<R, n, present, hist>>
 
-TOp == /\ E.k \in {"Ref", "Up", "Prune"}
-       /\ LET o == [op |-> IF E.k = "Ref" THEN "ref" ELSE IF E.k = "Up" THEN "up" ELSE "prune", i |-> IF E.k = "Ref" THEN E.i ELSE 0] IN
-          IF ~SessEnabled(T, R, sess, E.c, o) THEN Reject("domain:op-not-enabled", "plain")
-          ELSE sess' = SessApply(T, R, sess, E.c, o)
-       /\ UNCHANGED <<R, n, present, hist>>
+\* nh := h.Ref(i) - a new cursor value; h and every other value keep their positions
+TRef == /\ E.k = "Ref"
+        /\ IF ~SessRefEnabled(T, R, sess, E.c, E.h, E.i + 1) THEN Reject("domain:op-not-enabled", "plain")
+           ELSE sess' = SessRef(sess, E.c, E.h, E.nh, E.i + 1)
+        /\ UNCHANGED <<R, n, present, hist>>
+\* h.Prune(): the position cursor value h was created for
+TPrune == /\ E.k = "Prune"
+          /\ IF ~HasCursor(sess, E.c, E.h) THEN Reject("domain:op-not-enabled", "plain")
+             ELSE sess' = SessPrune(sess, E.c, E.h)
+          /\ UNCHANGED <<R, n, present, hist>>
 
 \* CreateProof(cursor of session c) = Proof(T, R, prune set of session c).   [reason, class, sem, add (to hist)]
 CreateOutcome(e, tT, tIT, tR, ss, hh) ==
-  IF e.c \notin DOMAIN ss THEN [reason |-> "domain:no-such-session", class |-> "plain"]
+  IF ~HasCursor(ss, e.c, e.h) THEN [reason |-> "domain:no-such-cursor", class |-> "plain"]
   ELSE IF e.panic # "" THEN [reason |-> "panic", class |-> "plain"]
   ELSE IF e.err # "" THEN [reason |-> "create-proof-error", class |-> "plain"]
   ELSE LET PS == ss[e.c].ps
@@ -91,7 +98,9 @@ CreateOutcome(e, tT, tIT, tR, ss, hh) ==
            \* prunes of earlier requests and of the other sessions of this prover
            foreign == hh \cup UNION {ss[c2].ps : c2 \in DOMAIN ss \ {e.c}}
            leak == wv.reason = "pruned-but-not-asked" /\ wv.extra \subseteq foreign
-       IN IF wv.reason # "" THEN [reason |-> wv.reason, class |-> IF leak THEN "leak" ELSE IF Partial(tT) THEN "partial" ELSE "plain"]
+           \* the prune set is wrong although nothing leaked, and a Prune went through a cursor value that had been held
+           held == wv.reason \in {"asked-but-not-pruned", "pruned-but-not-asked"} /\ ss[e.c].held
+       IN IF wv.reason # "" THEN [reason |-> wv.reason, class |-> IF leak THEN "leak" ELSE IF held THEN "held" ELSE IF Partial(tT) THEN "partial" ELSE "plain"]
           \* S->C: under the occurrence reading the bag is the very proof the generator computed
           ELSE IF Has(e, "exphash") /\ wv.sem = "occurrence" /\ BytesToHex(wv.hash) # e.exphash THEN [reason |-> "domain:spec-inconsistent", class |-> "plain"]
           ELSE [reason |-> "", class |-> "", sem |-> wv.sem, add |-> wv.psp \cup PS]
@@ -138,7 +147,7 @@ TKey == E.k = "Key" /\ UNCHANGED <<R, n, present, sess>> /\ KeyStep(KeyOutcome(E
 TraceInit == /\ l \in Starts /\ seg = l
              /\ R = 0 /\ n = 0 /\ present = {} /\ sess = <<>> /\ hist = {}
 TraceNext == /\ l <= N /\ (l # seg => Trace[l].k # "Reset")
-             /\ (TReset \/ TCursor \/ TOp \/ TCreate \/ TKey)
+             /\ (TReset \/ TCursor \/ TRef \/ TPrune \/ TCreate \/ TKey)
              /\ Consume
 TraceSpec == TraceInit /\ [][TraceNext]_tvars
 Report == \A i \in Starts : PrintT(<<"SEG", i, TLCGet(i)>>)
